@@ -323,6 +323,11 @@ def ev_mkbranch(w, name, author=AUTHOR):
     w.set_ref(name, sha)
 
 
+def ev_tag(w, name, branch):
+    """A release manager pushes tag `name` on the tip of `branch`."""
+    w.git('tag', name, w.refs()[branch])
+
+
 def ev_seq(w, *evs):
     """Several events applied as one (macro event); the observation is the
     last one's."""
@@ -333,7 +338,7 @@ def ev_seq(w, *evs):
 
 
 TABLE = {
-    'seq': ev_seq, 'mkbranch': ev_mkbranch,
+    'seq': ev_seq, 'mkbranch': ev_mkbranch, 'tag': ev_tag,
     'open': ev_open, 'open_raw': ev_open_raw, 'push': ev_push,
     'amend': ev_amend, 'rebase': ev_rebase, 'reset_src': ev_reset_src,
     'manual': ev_manual, 'approve': ev_approve, 'unapprove': ev_unapprove,
